@@ -76,10 +76,26 @@ func (g *ogen) jxNode() onode {
 		{"{{try}}a{{ hold.Boom().Arr }}b{{end}}d", "d"},
 		{"{{range li}}{{try}}a{{if " + v + " := hold.Boom(); " + v + "}}x{{end}}b{{catch " + ok + "}}c{{end}}{{.}}{{end}}", "c" + g.E(3) + "c" + g.E(0) + "c" + g.E(7)},
 		{"{{try}}{{try}}a{{ hold.Boom() }}{{catch}}{{ hold.Boom() }}{{end}}DEAD{{catch}}k{{end}}", "k"},
+		// a writer command keeps its own escaper while its arguments run template code with writer commands of their own
+		{"{{ safeHtml: exec(\"/owr.jet\") }}", htmlEsc("r<&")}, {"{{ raw: exec(\"/owr2.jet\") }}", "r<&"},
+		{"{{ safeHtml: ident(exec(\"/owr.jet\")) }}|{{ \"<\" }}", htmlEsc("r<&") + "|" + g.escape("<")},
+		{"{{ unsafe: includeIfExists(\"/owr3.jet\") }}", htmlEsc("<i>") + "true"},
+		// ints(a, b) runs from a up to b-1 however far apart the two are
+		{"{{ exec(\"/owide.jet\") }}", g.E(int64(-6000000000000000000))}, {"{{ exec(\"/owide2.jet\") }}", g.E("0:-6000000000000000000;1:-5999999999999999999;")},
+		// every := of an if / else-if chain is gone after {{end}}
+		{"{{if " + v + " := 1; " + v + " == 2}}DEAD{{else if " + ok + " := 2; " + ok + " == 3}}DEAD{{else}}C{{end}}|{{isset(" + v + ")}},{{isset(" + ok + ")}}", "C|" + g.E("false") + "," + g.E("false")},
+		{"{{ " + v + " := \"o\" }}{{if " + v + " := 1; " + v + " == 2}}DEAD{{else if " + ok + " := 2; " + ok + " == 2}}{{" + v + "}}{{" + ok + "}}{{end}}|{{" + v + "}}{{isset(" + ok + ")}}", g.E(1) + g.E(2) + "|" + g.E("o") + g.E("false")},
+		{"{{range li}}{{if " + v + " := .; " + v + " == 9}}DEAD{{else if " + ok + " := " + v + "; " + ok + " == 0}}z{{else}}n{{end}}{{isset(" + v + ", " + ok + ")}};{{end}}", "n" + g.E("false") + ";z" + g.E("false") + ";n" + g.E("false") + ";"},
+		// the piped value goes where the slot is, whatever the other arguments evaluate on the way
+		{"{{ \"x\" | cat(exec(\"/opipe.jet\"), \"+\", _) }}", g.escape("r+x")}, {"{{ \"x\" | cat: exec(\"/opipe.jet\"), _ }}", g.escape("rx")},
+		{"{{ \"x\" | rec(exec(\"/opipe.jet\"), _) }}", g.escape("[r x]")}, {"{{ \"x\" | rec(exec(\"/opipe.jet\")) }}", g.escape("[x r]")},
+		// a map keyed by a defined string type is a map with string keys
+		{"{{ isset(langs.en) }}{{ isset(langs[\"de\"]) }}{{ isset(langs.fr) }}", g.E("true") + g.E("true") + g.E("false")},
+		{"{{ langs.en }}|{{ langs[\"de\"] }}|{{ " + v + ", " + ok + " := langs[\"en\"] }}{{" + ok + "}}", g.escape("Hello<") + "|" + g.E("Hallo") + "|" + g.E("true")},
 	}
 	c := cs[r.Intn(len(cs))]
 	// each flavour leans towards the constructs that speak about its own property
-	want := map[string]string{"fields": "pets", "isset": "mn[", "try": "{{try}}", "include": "octx", "control": "nan", "calls": "| rec"}[g.flavor]
+	want := map[string]string{"fields": "pets", "isset": r.Pick([]string{"mn[", "langs"}), "try": "{{try}}", "include": "octx", "control": r.Pick([]string{"nan", "owide", "else if"}), "calls": r.Pick([]string{"| rec", "opipe"}), "escape": "owr", "scope": "else if"}[g.flavor]
 	for try := 0; want != "" && try < 4 && !strings.Contains(c.src, want); try++ {
 		c = cs[r.Intn(len(cs))]
 	}
@@ -272,6 +288,7 @@ func (g *ogen) failing() onode {
 		"{{ includeIfExists(\"/obroken.jet\") }}", "{{if includeIfExists(\"/obroken.jet\")}}DEAD{{end}}", "{{ includeIfExists(\"/obroken2.jet\", ia) }}", "{{include \"/obroken.jet\"}}", "{{ exec(\"/obroken2.jet\") }}",
 		"{{ li[bu] }}", "{{ ls[bv] }}", "{{ li[bu - ub] }}", "{{ sa[bv] }}",
 		"{{ ia * \"x\" }}", "{{ ia < \"x\" }}", "{{ ia * n }}", "{{ ia - \"x\" }}", "{{ 2 * \"a\" }}", "{{ ia * st }}", "{{ 1.5 * li }}", "{{ ia % \"1.5\" }}", "{{ ub + \"-1\" }}", "{{ ia >= m }}", "{{ ia / np }}",
+		"{{if mn.i()}}x{{end}}", "{{ v9 := mn.i(1, 2) }}", "{{ upper(mn.i()) }}", "{{ ident(st.I()) }}", "{{range mn.i()}}x{{end}}", "{{ 1 + mn.i() }}", "{{ mn.i() ? 1 : 2 }}", "{{ li[mn.i()] }}",
 		"{{ m[n] }}", "{{ st[n] }}", "{{ li[n] }}", "{{ ms[n].Name }}", "{{ m[st.I] }}", "{{ li[1:4] }}", "{{ li[:5] }}", "{{ ls[0:4] }}", "{{ len(li[:4]) }}", "{{ li[4:] }}", "{{range li[2:4]}}x{{end}}", "{{ li[3] }}", "{{ ls[3] }}"})
 	if g.named && g.r.Chance(35) {
 		act = g.r.Pick([]string{"{{ arr[0:4] }}", "{{ arr[3] }}", "{{ arr[2:1] }}", "{{ parr[0:1] }}", "{{ nf(\"a\") }}", "{{ \"a\" | nf }}", "{{ hold.F(1) }}", "{{ njf(1) }}", "{{ 1 | njf }}",
@@ -775,6 +792,13 @@ func genOracleProgram(r *h.Rand, flavor string) (*prog, *sx.Sexp) {
 		vars.Add(bind("nan1", gov("nanmap1"))).Add(bind("nan2", gov("nanmap2"))).Add(bind("pets", gov("pets"))).Add(bind("rec", vJFunc("rec")))
 		p.files["/octx.jet"] = "{{if .}}has{{else}}none{{end}}"
 		p.files["/octxr.jet"] = "{{return isset(.)}}"
+		p.files["/owr.jet"] = "{{ \"<i>\" | raw }}{{ return \"r<&\" }}"
+		p.files["/owr2.jet"] = "{{ \"<i>\" | safeHtml }}{{ return \"r<&\" }}"
+		p.files["/owr3.jet"] = "{{ \"<i>\" | safeHtml }}"
+		p.files["/owide.jet"] = "{{range i, v := ints(wlo, whi)}}{{return v}}{{else}}{{return \"EMPTY\"}}{{end}}"
+		p.files["/owide2.jet"] = "{{ o := \"\" }}{{range i, v := ints(wlo, whi)}}{{ o = o + i + \":\" + v + \";\" }}{{if i == 1}}{{return o}}{{end}}{{else}}{{return \"EMPTY\"}}{{end}}"
+		p.files["/opipe.jet"] = "{{ \"in\" | upper }}{{ return \"r\" }}"
+		vars.Add(bind("wlo", vInt(-6000000000000000000))).Add(bind("whi", vInt(6000000000000000000))).Add(bind("langs", gov("langmap"))).Add(bind("cat", vFunc("cat")))
 	}
 	vars.Add(bind("bu", vUint(9223372036854775808))).Add(bind("bv", vUint(18446744073709551615))).Add(bind("ub", vUint(1)))
 	// templates that exist but do not parse: including them is a failure, however it is spelled
